@@ -1309,3 +1309,45 @@ T("C19", "size setter truncating through initialized_size", "byteinterval.py",
 T("C19", "contains_offset as two comparisons", "block.py",
   """        return self.offset <= offset < (self.offset + self.size)""",
   """        return offset >= self.offset and offset < self.offset + self.size""")
+
+# ---------------------------------------------------------------------------
+# boundary logic (R05.7)
+F("C05", "'on' keeps a block ending exactly at the query start", "util.py",
+  """        if node_interval.end - 1 <= desired_range.start:""",
+  """        if node_interval.end - 1 < desired_range.start:""", "R05.7")
+F("C05", "'on' no longer excludes zero-sized blocks", "util.py",
+  """        if not node_interval.length() - 1:
+            continue
+""", "", "R05.7")
+F("C05", "'on' boundary filter compares with the query stop", "util.py",
+  """        if node_interval.end - 1 <= desired_range.start:""",
+  """        if node_interval.end - 1 <= desired_range.stop:""", "R05.7")
+F("C05", "'at' tests the interval end", "util.py",
+  """        if bounds.begin in desired_range:""", """        if bounds.end - 1 in desired_range:""", "R05.7")
+F("C05", "'at' pre-filter starts one late", "util.py",
+  """    for interval in tree.overlap(
+        desired_range.start + adjustment, desired_range.stop + adjustment
+    ):
+        bounds = bounds_getter(interval.data)""", """    for interval in tree.overlap(
+        desired_range.start + adjustment + 1, desired_range.stop + adjustment
+    ):
+        bounds = bounds_getter(interval.data)""", "R05.7")
+F("C05", "'on' pre-filter forgets the adjustment on the upper bound", "util.py",
+  """    for interval in tree.overlap(
+        desired_range.start + adjustment, desired_range.stop + adjustment
+    ):
+        node = interval.data""", """    for interval in tree.overlap(
+        desired_range.start + adjustment, desired_range.stop
+    ):
+        node = interval.data""", None, allow_error=True)
+F("C06", "nodes_on treats the node range as closed", "util.py",
+  """            node_range = range(node_addr, node_addr + node_size)""",
+  """            node_range = range(node_addr, node_addr + node_size + 1)""", "R05.7")
+F("C06", "nodes_at ignores the step", "util.py",
+  """        if node_addr is not None and node_addr in desired_range:""",
+  """        if node_addr is not None and desired_range.start <= node_addr < desired_range.stop:""", "R05.7")
+T("C05", "'on' boundary filter written the other way round", "util.py",
+  """        if node_interval.end - 1 <= desired_range.start:""",
+  """        if desired_range.start >= node_interval.end - 1:""")
+T("C05", "zero-size filter as an explicit comparison", "util.py",
+  """        if not node_interval.length() - 1:""", """        if node_interval.length() - 1 == 0:""")
